@@ -117,9 +117,13 @@ Lemma loop_cons c n e rest :
     | SynAssert => (accept_events c q, XAssert, n)
     | SynStarved => (accept_events c q, XStarved, n)
     | SynTrue =>
-      if mem_exceeded (eff_maxmem c) (q_mem q)
-      then (accept_events c q ++ exec_events c q, XReturn EX_RECYCLE, n + 1)
-      else pre (accept_events c q ++ exec_events c q) (loop c (n + 1) rest)
+      match task_escapes q with
+      | Some x => (accept_events c q ++ [ERun (q_job q) (q_i q)], x, n)
+      | None =>
+        if mem_exceeded (eff_maxmem c) (q_mem q)
+        then (accept_events c q ++ exec_events c q, XReturn EX_RECYCLE, n + 1)
+        else pre (accept_events c q ++ exec_events c q) (loop c (n + 1) rest)
+      end
     end
   end.
 Proof. intros G. cbn [loop]. rewrite G. reflexivity. Qed.
@@ -131,7 +135,8 @@ Ltac loop_cases c n e rest G :=
   [ | | | | | | |
     destruct (task_ok (q_ty q)) eqn:Hty; cbn [negb];
     [ destruct (fst (syn_result c q)) as [| |xcode| |] eqn:Hsyn;
-      [ destruct (mem_exceeded (eff_maxmem c) (q_mem q)) eqn:Hmem | | | | ] | ] ].
+      [ destruct (task_escapes q) as [xesc|] eqn:Hesc;
+        [ | destruct (mem_exceeded (eff_maxmem c) (q_mem q)) eqn:Hmem ] | | | | ] | ] ].
 
 (* ------------------------------------------------------------------ *)
 (* facts about the SYN wait                                              *)
@@ -210,10 +215,16 @@ Qed.
 
 (* ------------------------------------------------------------------ *)
 (* Message grammar                                                       *)
+Definition escapes (q : req) : bool :=
+  match task_escapes q with Some _ => true | None => false end.
+(* jobs that are executed to the end and counted *)
+Definition counted (c : cfg) (q : req) : bool := confirmed c q && negb (escapes q).
+
 Definition block (c : cfg) (q : req) : list ev :=
   EPut (ack_msg c q) ::
   (if confirmed c q
-   then [ERun (q_job q) (q_i q); EPut (ready_msg c q (final_res (q_beh q)))]
+   then ERun (q_job q) (q_i q) ::
+        (if escapes q then [] else [EPut (ready_msg c q (final_res (q_beh q)))])
    else []).
 
 (* the task messages of an input script, in order *)
@@ -226,7 +237,7 @@ Fixpoint tasks (ins : list (rcv req)) : list req :=
 
 Theorem loop_grammar c : forall ins n, exists k,
     proto (evs (loop c n ins)) = flat_map (block c) (firstn k (tasks ins)) /\
-    cnt (loop c n ins) = n + Z.of_nat (length (filter (confirmed c) (firstn k (tasks ins)))).
+    cnt (loop c n ins) = n + Z.of_nat (length (filter (counted c) (firstn k (tasks ins)))).
 Proof.
   induction ins as [|e rest IH]; intros n.
   - exists O. destruct (guard (maxtasks c) n) eqn:G.
@@ -238,28 +249,34 @@ Proof.
       try (exists O; cbn; split; [reflexivity|lia]);
       try (destruct (IH n) as [k [Hp Hc]]; exists k;
            rewrite pre_evs, pre_cnt; cbn [tasks app proto filter is_proto]; split; assumption).
+    + (* confirmed, the task's exception leaves the loop *)
+      exists 1%nat. cbn [tasks]. rewrite Hty. cbn [firstn flat_map filter].
+      unfold evs, cnt. cbn [fst snd]. unfold counted, block, confirmed, escapes.
+      rewrite Hsyn, Hesc. rewrite proto_app, proto_accept, app_nil_r. cbn. split; [reflexivity|lia].
     + (* confirmed, memory limit exceeded *)
       exists 1%nat. cbn [tasks]. rewrite Hty. cbn [firstn flat_map filter].
-      unfold evs, cnt. cbn [fst snd]. unfold block, confirmed. rewrite Hsyn.
+      unfold evs, cnt. cbn [fst snd]. unfold counted, block, confirmed, escapes.
+      rewrite Hsyn, Hesc. cbn [andb negb].
       rewrite proto_app, proto_accept, proto_exec, app_nil_r. cbn [length]. split; [reflexivity|lia].
     + (* confirmed, continues *)
       destruct (IH (n + 1)) as [k [Hp Hc]]. exists (S k).
       rewrite pre_evs, pre_cnt. cbn [tasks]. rewrite Hty. cbn [firstn flat_map filter].
-      unfold block at 1, confirmed at 1. unfold confirmed at 1. rewrite Hsyn.
-      rewrite !proto_app, proto_accept, proto_exec, Hp. cbn [length]. split; [reflexivity|lia].
+      unfold counted at 1, block at 1, confirmed, escapes. rewrite Hsyn, Hesc. cbn [andb negb].
+      rewrite !proto_app, proto_accept, proto_exec, Hp. cbn [length].
+      split; [reflexivity|]. fold (confirmed c) in *. unfold counted in Hc. unfold counted. lia.
     + (* refused *)
       destruct (IH n) as [k [Hp Hc]]. exists (S k).
       rewrite pre_evs, pre_cnt. cbn [tasks]. rewrite Hty. cbn [firstn flat_map filter].
-      unfold block at 1, confirmed at 1. unfold confirmed at 1. rewrite Hsyn.
+      unfold counted at 1, block at 1, confirmed. rewrite Hsyn. cbn [andb].
       rewrite proto_app, proto_accept, Hp. split; [reflexivity|exact Hc].
     + exists 1%nat. cbn [tasks]. rewrite Hty. cbn [firstn flat_map filter].
-      unfold evs, cnt, block, confirmed. cbn [fst snd]. rewrite Hsyn, proto_accept.
+      unfold evs, cnt, counted, block, confirmed. cbn [fst snd]. rewrite Hsyn, proto_accept.
       cbn. split; [reflexivity|lia].
     + exists 1%nat. cbn [tasks]. rewrite Hty. cbn [firstn flat_map filter].
-      unfold evs, cnt, block, confirmed. cbn [fst snd]. rewrite Hsyn, proto_accept.
+      unfold evs, cnt, counted, block, confirmed. cbn [fst snd]. rewrite Hsyn, proto_accept.
       cbn. split; [reflexivity|lia].
     + exists 1%nat. cbn [tasks]. rewrite Hty. cbn [firstn flat_map filter].
-      unfold evs, cnt, block, confirmed. cbn [fst snd]. rewrite Hsyn, proto_accept.
+      unfold evs, cnt, counted, block, confirmed. cbn [fst snd]. rewrite Hsyn, proto_accept.
       cbn. split; [reflexivity|lia].
 Qed.
 
@@ -326,6 +343,9 @@ Proof.
     { rewrite pre_evs, mrun_app. cbn [mrun]. rewrite (pollable_inq s P).
       apply IH. unfold pollable; auto. }
     loop_cases c n e rest G; try exact Hone; try exact Hskip.
+    + unfold evs; cbn [fst]. rewrite mrun_app, (mrun_accept c q s P).
+      destruct (0 <? Z.of_nat (snd (syn_result c q))); cbn [mrun mstep];
+        rewrite Z.eqb_refl, oz_eqb_refl; cbn; eauto.
     + unfold evs; cbn [fst]. rewrite mrun_app, (mrun_accept c q s P).
       destruct (mrun_exec c q (0 <? Z.of_nat (snd (syn_result c q)))) as [s' [E _]].
       rewrite E. eauto.
@@ -403,8 +423,19 @@ Qed.
 
 (* ------------------------------------------------------------------ *)
 (* Quota                                                                 *)
+(* executions that were cut short by a termination request: at most the last one *)
+Definition cut_short (x : exit) : Z :=
+  match x with XTaskExc _ _ | XTerminated _ => 1 | _ => 0 end.
+
+Lemma task_escapes_kind q x : task_escapes q = Some x -> cut_short x = 1.
+Proof.
+  unfold task_escapes. destruct (q_beh q); try discriminate;
+    try (destruct (q_term q); [|discriminate]); intros E; inversion E; reflexivity.
+Qed.
+
 Lemma loop_cnt_runs c : forall ins n,
-    cnt (loop c n ins) = n + Z.of_nat (runs (evs (loop c n ins))).
+    cnt (loop c n ins) + cut_short (xit (loop c n ins)) =
+    n + Z.of_nat (runs (evs (loop c n ins))).
 Proof.
   induction ins as [|e rest IH]; intros n.
   - destruct (guard (maxtasks c) n) eqn:G;
@@ -412,11 +443,16 @@ Proof.
   - destruct (guard (maxtasks c) n) eqn:G;
       [|rewrite loop_stop by exact G; cbn; lia].
     loop_cases c n e rest G;
-      rewrite ?pre_evs, ?pre_cnt, ?runs_app, ?runs_accept; unfold evs, cnt; cbn [fst snd];
+      rewrite ?pre_evs, ?pre_cnt, ?pre_xit, ?runs_app, ?runs_accept; unfold evs, cnt, xit; cbn [fst snd];
       rewrite ?runs_app, ?runs_accept, ?runs_exec; try (cbn; lia);
-      try (specialize (IH n); unfold evs, cnt in IH; cbn [runs]; lia).
-    specialize (IH (n + 1)); unfold evs, cnt in IH. lia.
+      try (specialize (IH n); unfold evs, cnt, xit in IH; cbn [runs]; lia).
+    + rewrite (task_escapes_kind q xesc Hesc). cbn. lia.
+    + specialize (IH (n + 1)); unfold evs, cnt, xit in IH. lia.
 Qed.
+
+Ltac esc_absurd H :=
+  let E := fresh "E" in
+  intros E; rewrite E in H; apply task_escapes_kind in H; discriminate H.
 
 Lemma guard_quota N n : 1 <= N -> guard (Some N) n = (n <? N).
 Proof. intros H. unfold guard. replace (N =? 0) with false by lia. reflexivity. Qed.
@@ -449,7 +485,8 @@ Proof.
     + assert (Hlt : n < N) by (rewrite HN, guard_quota in G by exact H1; lia).
       loop_cases c n e rest G; rewrite ?pre_xit; unfold xit at 1; cbn [fst snd];
         try discriminate; try (apply IH; lia).
-      intros E; inversion E; reflexivity.
+      * esc_absurd Hesc.
+      * intros E; inversion E; reflexivity.
     + rewrite loop_stop by exact G. cbn. rewrite HN in *. rewrite guard_quota in G by exact H1.
       intros E; inversion E. unfold Worker.exit_status.
       replace (N =? 0) with false by lia. replace (n =? N) with true by lia. reflexivity.
@@ -488,7 +525,8 @@ Proof.
   - destruct (guard (maxtasks c) n) eqn:G.
     + loop_cases c n e rest G; rewrite ?pre_xit, ?pre_cnt; unfold xit at 1; cbn [fst snd];
         try discriminate; try (apply IH).
-      rewrite Hoff in Hmem. discriminate.
+      * esc_absurd Hesc.
+      * rewrite Hoff in Hmem. discriminate.
     + rewrite loop_stop by exact G. cbn. intros _. exact G.
 Qed.
 
@@ -530,11 +568,12 @@ Proof.
         try discriminate;
         try (intros E; destruct (IH _ _ E) as [L|(R1 & R2 & l & R3)]; [left; exact L|right];
              split; [exact R1|split; [exact R2|]]; rewrite R3; eexists; rewrite app_assoc; reflexivity).
-      intros E; inversion E. right. split; [reflexivity|].
-      unfold mem_exceeded in Hmem. split; [lia|].
-      unfold evs, exec_events; cbn [fst]. replace (eff_maxmem c >? 0) with true by lia.
-      exists (accept_events c q ++ ERun (q_job q) (q_i q) :: ready_events c q).
-      rewrite <- app_assoc. reflexivity.
+      * esc_absurd Hesc.
+      * intros E; inversion E. right. split; [reflexivity|].
+        unfold mem_exceeded in Hmem. split; [lia|].
+        unfold evs, exec_events; cbn [fst]. replace (eff_maxmem c >? 0) with true by lia.
+        exists (accept_events c q ++ ERun (q_job q) (q_i q) :: ready_events c q).
+        rewrite <- app_assoc. reflexivity.
     + rewrite loop_stop by exact G. cbn. intros E; inversion E. left. auto.
 Qed.
 
@@ -568,19 +607,73 @@ Qed.
 (* One executed job, whatever it does                                    *)
 Theorem exec_step c n q rest :
   guard (maxtasks c) n = true -> task_ok (q_ty q) = true -> confirmed c q = true ->
+  task_escapes q = None ->
   mem_exceeded (eff_maxmem c) (q_mem q) = false ->
   loop c n (RMsg q :: rest) =
   pre (accept_events c q ++ exec_events c q) (loop c (n + 1) rest).
 Proof.
-  intros G Hty Hc Hm. rewrite (loop_cons c n _ rest G). cbn [protected_receive].
+  intros G Hty Hc He Hm. rewrite (loop_cons c n _ rest G). cbn [protected_receive].
   rewrite Hty. cbn [negb]. unfold confirmed in Hc.
-  destruct (fst (syn_result c q)); try discriminate. rewrite Hm. reflexivity.
+  destruct (fst (syn_result c q)); try discriminate. rewrite He, Hm. reflexivity.
+Qed.
+
+(* a termination request during the task (the handler's SystemExit, or any exception raised
+   while common._should_have_exited is set): the exception leaves workloop right after the
+   execution started -- no READY, not counted, no further job taken *)
+Theorem terminated_step c n q rest x :
+  guard (maxtasks c) n = true -> task_ok (q_ty q) = true -> confirmed c q = true ->
+  task_escapes q = Some x ->
+  loop c n (RMsg q :: rest) = (accept_events c q ++ [ERun (q_job q) (q_i q)], x, n).
+Proof.
+  intros G Hty Hc He. rewrite (loop_cons c n _ rest G). cbn [protected_receive].
+  rewrite Hty. cbn [negb]. unfold confirmed in Hc.
+  destruct (fst (syn_result c q)); try discriminate. rewrite He. reflexivity.
+Qed.
+
+(* whole-run form, every input script / quota / configuration: whenever workloop is left by
+   an exception of the task (termination handler, or raise while the flag is set), the trace
+   ENDS with that job's ACK, SYN polls and the start of its execution: no READY for it, no
+   further job taken (no poll of the job pipe), and the job is a confirmed task message of
+   the script whose oracle says so *)
+Theorem termination_ends_trace c : forall ins n,
+    cut_short (xit (loop c n ins)) = 1 ->
+    exists l q, In (RMsg q) ins /\ confirmed c q = true /\
+                task_escapes q = Some (xit (loop c n ins)) /\
+                evs (loop c n ins) = l ++ accept_events c q ++ [ERun (q_job q) (q_i q)].
+Proof.
+  induction ins as [|e rest IH]; intros n.
+  - destruct (guard (maxtasks c) n) eqn:G;
+      [rewrite loop_nil by exact G|rewrite loop_stop by exact G]; cbn; discriminate.
+  - destruct (guard (maxtasks c) n) eqn:G;
+      [|rewrite loop_stop by exact G; cbn; discriminate].
+    loop_cases c n e rest G; rewrite ?pre_xit, ?pre_evs; try (cbn; discriminate);
+      try (intros H; destruct (IH _ H) as (l & q0 & Hin & Hc & He & Hev);
+           eexists; exists q0; split; [right; exact Hin|split; [exact Hc|split; [exact He|]]];
+           rewrite Hev, app_assoc; reflexivity).
+    intros _. exists [], q. unfold xit, evs; cbn [fst snd app].
+    split; [left; reflexivity|]. split; [unfold confirmed; rewrite Hsyn; reflexivity|].
+    split; [exact Hesc|reflexivity].
+Qed.
+
+(* ... and such a run counts only the jobs executed to the end *)
+Corollary termination_not_counted c ins n :
+  cut_short (xit (loop c n ins)) = 1 ->
+  cnt (loop c n ins) = n + Z.of_nat (runs (evs (loop c n ins))) - 1.
+Proof. intros H. pose proof (loop_cnt_runs c ins n) as R. lia. Qed.
+
+(* without a termination request nothing the task raises leaves the loop *)
+Theorem no_termination_no_escape q :
+  q_term q = false -> (forall code, q_beh q <> Terminated code) -> task_escapes q = None.
+Proof.
+  intros Ht Hb. unfold task_escapes. destruct (q_beh q); rewrite ?Ht; try reflexivity.
+  exfalso. eapply Hb. reflexivity.
 Qed.
 
 (* an unserialisable result: one failed put, then exactly one READY carrying the
    encoding error for the same job, and the loop goes on with the job counted *)
 Theorem unserialisable_step c n q rest :
   guard (maxtasks c) n = true -> task_ok (q_ty q) = true -> confirmed c q = true ->
+  task_escapes q = None ->
   mem_exceeded (eff_maxmem c) (q_mem q) = false ->
   first_put_fails (q_beh q) = true ->
   loop c n (RMsg q :: rest) =
@@ -590,7 +683,7 @@ Theorem unserialisable_step c n q rest :
        (if eff_maxmem c >? 0 then [EMem] else []))
       (loop c (n + 1) rest).
 Proof.
-  intros G Hty Hc Hm Hf. rewrite (exec_step c n q rest G Hty Hc Hm).
+  intros G Hty Hc He Hm Hf. rewrite (exec_step c n q rest G Hty Hc He Hm).
   unfold exec_events, ready_events. rewrite Hf. reflexivity.
 Qed.
 
@@ -788,6 +881,7 @@ Proof.
     change (ACK =? ACK) with true. reflexivity.
   - unfold pev_of at 1. cbn [ack_msg m_job m_pl m_ty]. rewrite E. cbn [app].
     destruct (confirmed c q); cbn [puts flat_map]; [|reflexivity].
+    destruct (escapes q); cbn [puts flat_map]; [reflexivity|].
     unfold pev_of. cbn [ready_msg m_job m_pl m_ty]. rewrite E. reflexivity.
 Qed.
 
@@ -843,6 +937,7 @@ Proof.
   - exists q. split; [apply Hin; left; reflexivity|].
     unfold block in Hm. cbn [puts] in Hm. destruct Hm as [<-|Hm]; [left; reflexivity|].
     destruct (confirmed c q); cbn [puts] in Hm; [|contradiction].
+    destruct (escapes q); cbn [puts] in Hm; [contradiction|].
     destruct Hm as [<-|[]]. right; reflexivity.
   - apply IH; [|exact Hm]. intros q' Hq'. apply Hin. right. exact Hq'.
 Qed.
@@ -943,7 +1038,7 @@ Proof. unfold w_ensure, w_completed. rewrite workloop_eq. reflexivity. Qed.
 
 Theorem workloop_grammar c ins : exists k,
     proto (w_events c ins) = flat_map (block c) (firstn k (tasks ins)) /\
-    w_completed c ins = Z.of_nat (length (filter (confirmed c) (firstn k (tasks ins)))).
+    w_completed c ins = Z.of_nat (length (filter (counted c) (firstn k (tasks ins)))).
 Proof.
   rewrite w_events_eq, w_completed_eq. destruct (loop_grammar c ins 0) as [k [A B]].
   exists k. split; [exact A|lia].
@@ -953,8 +1048,8 @@ Theorem workloop_monitor c ins : monitor (w_events c ins) = true.
 Proof. rewrite w_events_eq. apply workloop_monitored. Qed.
 
 Theorem workloop_completed_is_runs c ins :
-  w_completed c ins = Z.of_nat (runs (w_events c ins)).
-Proof. rewrite w_events_eq, w_completed_eq, loop_cnt_runs. lia. Qed.
+  w_completed c ins + cut_short (w_exit c ins) = Z.of_nat (runs (w_events c ins)).
+Proof. rewrite w_events_eq, w_completed_eq, w_exit_eq, loop_cnt_runs. lia. Qed.
 
 Theorem workloop_quota c N ins :
   maxtasks c = Some N -> 1 <= N ->
@@ -1005,11 +1100,14 @@ Proof. split; [apply puts_exec|apply runs_exec]. Qed.
 (* the status the worker process exits with (Worker.__call__ / _do_exit)  *)
 Theorem call_status_recycle c N ins :
   maxtasks c = Some N -> 1 <= N ->
-  (call_status (w_exit c ins) = EX_RECYCLE <-> w_exit c ins = XReturn EX_RECYCLE).
+  (call_status (w_exit c ins) = EX_RECYCLE <->
+   (w_exit c ins = XReturn EX_RECYCLE \/ w_exit c ins = XTerminated EX_RECYCLE)).
 Proof.
-  intros HN H1. destruct (workloop_quota c N ins HN H1) as (_ & _ & Hcode & _).
-  destruct (w_exit c ins) as [code|code| |] eqn:E; cbn; split; intros H;
-    try discriminate; try (inversion H; subst; reflexivity).
+  intros HN H1.
+  destruct (w_exit c ins) as [code|code| |b e0|code|] eqn:E; cbn; split;
+    try (intros [H|H]; try discriminate; inversion H; subst; reflexivity);
+    try (intros H; try discriminate; subst; auto).
+  destruct b; discriminate.
 Qed.
 
 (* a SystemExit raised by the receive (sentinel, EOF, broken pipe) ends the process with
